@@ -109,7 +109,7 @@ def oracle(case, ob):
 PROP = Prop(
     pid="C09",
     props_v="theories/Props/C09.v",
-    theory_files=["theories/Sched/Model.v", "theories/Sched/Corr.v", "theories/Sched/PartitionProofs.v"],
+    theory_files=["theories/Sched/Model.v", "theories/Sched/Corr.v", "theories/Sched/PartTables.v", "theories/Sched/PartitionProofs.v", "theories/Sched/PartitionSteps.v", "theories/Sched/PartitionRun.v", "theories/Sched/PartitionFinal.v"],
     streams=[make_stream("partition", gen, oracle)],
     rule="bounded-exhaustive environment sequences over {step, cancel, task_throw, set event, resolve/cancel future, "
          "query-from-callback} against three workers (blocked on an event, on a future, sleeping) on three loops with "
